@@ -150,6 +150,24 @@ def main():
             except Exception as e:  # noqa
                 if ok0:
                     em.violation("validate=0 parse raised %r" % e, {"frame": g.hex()}, repr(e))
+    # damage of the LENGTH field that turns the frame into <valid shorter frame> + residue: still damage, still to be rejected
+    for lf, bits, short in gen.prefix_frame_pairs(rng):
+        ndet += 2
+        try:
+            RTCMReader.parse(lf, validate=1)
+        except Exception as e:  # noqa
+            em.violation("crafted long frame is not accepted: %r" % e, {"frame": lf.hex()}, {})
+            continue
+        if not rejected(flip(lf, bits)):
+            em.violation("%d flipped bit(s) in the length field accepted (the damaged bytes begin with a valid shorter frame)" % len(bits), {"frame": lf.hex(), "bits": bits}, {})
+        em.count("damage.prefixframe")
+    # trailing residue after a valid frame is not that frame: the static parser's CRC gate covers the whole buffer it is given
+    for f in frames[:4]:
+        for extra in (b"\r\n", b"\x00", bytes(rng.getrandbits(8) for _ in range(5))):
+            ndet += 1
+            g = f + extra
+            if gen.crc24q_ref(g[:-3]) != int.from_bytes(g[-3:], "big") and not rejected(g):
+                em.violation("a buffer whose CRC-24Q is not zero is accepted with validation on", {"frame": g.hex(), "bits": [], "note": "valid frame + %d trailing bytes" % len(extra)}, {})
     em.direct_evaluations += ndet
     em.count("damage.evaluations", ndet)
     em.finish()
